@@ -36,6 +36,9 @@ pub struct ScopeCase {
     pub interactive: bool,
     /// directory index to start from (mapped onto existing directories)
     pub cwd: u8,
+    /// bit i set: the i-th diff-named file was renamed (its old state lives under another path; `git diff -M`)
+    #[serde(default)]
+    pub renamed: u8,
 }
 
 #[derive(Clone, Copy, Debug, PartialEq, Eq)]
@@ -172,11 +175,24 @@ pub fn check(c: &ScopeCase, probe: &Probe) -> Verdict {
         sb.write("src/.gitignore", b"x.js\nmy lib/\n");
     }
     // old state: every file healthy (so that git tracks it), committed with -f
+    let renamed: Vec<(String, String)> = diff_set
+        .iter()
+        .enumerate()
+        .filter(|(i, _)| c.renamed & (1 << i) != 0)
+        .map(|(i, p)| (p.clone(), format!("zold/{i}_{}", p.rsplit('/').next().unwrap().trim_start_matches('.'))))
+        .collect();
     for p in &paths {
-        sb.write(p, content(p, true, false).as_bytes());
+        match renamed.iter().find(|(n, _)| n == p) {
+            // the content names the block after the *new* path so that old and new states stay similar
+            Some((_, old)) => sb.write(old, content(p, true, false).as_bytes()),
+            None => sb.write(p, content(p, true, false).as_bytes()),
+        }
     }
     sb.git_ok(&["add", "-A", "-f"]);
     sb.git_ok(&["commit", "-q", "-m", "old"]);
+    for (_, old) in &renamed {
+        sb.remove(old);
+    }
 
     // reference scope
     let walkable = |p: &str| -> bool {
@@ -210,11 +226,16 @@ pub fn check(c: &ScopeCase, probe: &Probe) -> Verdict {
     let diff = if diff_set.is_empty() {
         String::new()
     } else {
-        let mut args = vec!["-U1", "--"];
+        sb.git_ok(&["add", "-A", "-f"]);
+        let mut args = vec!["--cached", "-M", "-U1", "--"];
         let ds: Vec<&str> = diff_set.iter().map(String::as_str).collect();
         args.extend(ds.iter());
+        args.extend(renamed.iter().map(|(_, o)| o.as_str()));
         sb.git_diff(&args)
     };
+    if !renamed.is_empty() {
+        probe.class("diff-with-renamed-file");
+    }
     let dirs: Vec<String> = {
         let mut d: BTreeSet<String> = BTreeSet::new();
         d.insert(String::new());
@@ -305,13 +326,14 @@ pub fn case_strategy() -> BoxedStrategy<ScopeCase> {
         proptest::collection::vec(any::<u16>(), 0..4),
         proptest::bool::weighted(0.3),
         any::<u8>(),
+        prop_oneof![2 => Just(0u8), 1 => 0u8..8],
     )
-        .prop_map(|(tree, gitignore, nested_gitignore, globs, ignores, diff_files, interactive, cwd)| ScopeCase { tree, gitignore, nested_gitignore, globs, ignores, diff_files, interactive, cwd })
+        .prop_map(|(tree, gitignore, nested_gitignore, globs, ignores, diff_files, interactive, cwd, renamed)| ScopeCase { tree, gitignore, nested_gitignore, globs, ignores, diff_files, interactive, cwd, renamed })
         .boxed()
 }
 
 pub fn run(run: &mut Run) {
-    run.rule = "random: a tree of 2..13 files over 14 directories (incl. `a`, `b`, `b/b`, `b/a/b`, a name with a space, a dotted directory, hidden directories, git-ignored directories) x 11 file names (5 languages, names with spaces/dots, hidden, git-ignored, unknown suffix), a generated .gitignore (+ optional nested one), 0..3 positional and 0..3 --ignore globs of the four documented forms (`*.ext`, `dir/**`, `**/name`, exact path), a real `git diff` naming 0..3 of the files (each touched inside its block) or interactive mode, started from the root or any sub-directory. Every file holds one uniquely named violating block; files outside the reference scope are rewritten as tripwires (unclosed start tag), so examining one fails the run. Reference scope = ((not hidden and not ignored by `git check-ignore --no-index`) and matches a positional glob — everything when interactive without globs) or named in the diff, minus --ignore matches; `*.ext` on nested paths is unspecified. Compared with the key sets of `list` and of the diagnostics. Non-trivial = a top-level directory `b` together with a diff-named file outside every glob / hit by an ignore glob / under `b/`.".into();
+    run.rule = "random: a tree of 2..13 files over 14 directories (incl. `a`, `b`, `b/b`, `b/a/b`, a name with a space, a dotted directory, hidden directories, git-ignored directories) x 11 file names (5 languages, names with spaces/dots, hidden, git-ignored, unknown suffix), a generated .gitignore (+ optional nested one), 0..3 positional and 0..3 --ignore globs of the four documented forms (`*.ext`, `dir/**`, `**/name`, exact path), a real `git diff --cached -M` naming 0..3 of the files (each touched inside its block; some of them renamed, so that the `---` and `+++` paths differ) or interactive mode, started from the root or any sub-directory. Every file holds one uniquely named violating block; files outside the reference scope are rewritten as tripwires (unclosed start tag), so examining one fails the run. Reference scope = ((not hidden and not ignored by `git check-ignore --no-index`) and matches a positional glob — everything when interactive without globs) or named in the diff, minus --ignore matches; `*.ext` on nested paths is unspecified. Compared with the key sets of `list` and of the diagnostics. Non-trivial = a top-level directory `b` together with a diff-named file outside every glob / hit by an ignore glob / under `b/`.".into();
     run.assumptions = vec![
         "git's own ignore matcher is the authority on .gitignore semantics; globs are matched by a harness-side matcher for the four documented forms only".into(),
         "default a/ b/ diff prefixes (no --no-prefix), paths free of characters git quotes".into(),
